@@ -175,7 +175,7 @@ Proof.
   destruct (f x) eqn:Fx; [|exfalso; now apply (Hres x (or_introl eq_refl))].
   simpl. destruct (keq x k) eqn:E; simpl.
   - f_equal. apply fm_ext. intros y Hy. now rewrite (nodupk_tail_false x r k Hx E y Hy).
-  - rewrite Fx. simpl. f_equal. apply IH; auto.
+  - f_equal. apply IH; auto.
 Qed.
 
 Lemma s_set_fm_absent : forall f l k v, existsb (fun x => keq x k) l = false ->
@@ -194,7 +194,7 @@ Proof.
   destruct (f x) eqn:Fx; [|exfalso; now apply (Hres x (or_introl eq_refl))].
   simpl. destruct (keq x k) eqn:E; simpl.
   - apply fm_ext. intros y Hy. now rewrite (nodupk_tail_false x r k Hx E y Hy).
-  - rewrite E, Fx. simpl. f_equal. apply IH; auto.
+  - try rewrite E; try rewrite Fx; simpl; try rewrite E; simpl. f_equal. apply IH; auto.
 Qed.
 
 (* ------------------------------------------------------------------ *)
@@ -222,8 +222,8 @@ Qed.
 Lemma remove_first_length : forall (A : Type) (f : A -> bool) l, existsb f l = true ->
   Z.of_nat (length (remove_first f l)) = Z.of_nat (length l) - 1.
 Proof.
-  induction l as [|a r IH]; simpl; intros H; [discriminate|].
-  destruct (f a); simpl in *; [lia|]. rewrite Nat2Z.inj_succ, IH by assumption. lia.
+  induction l as [|a r IH]; cbn [existsb remove_first]; intros H; [discriminate|].
+  destruct (f a); cbn [orb] in H; cbn [length]; [lia|]. rewrite Nat2Z.inj_succ, IH by assumption. lia.
 Qed.
 
 Lemma remove_first_map_fst : forall (f : K -> bool) (b : bucket),
